@@ -566,7 +566,14 @@ func fieldKey(owner types.Type, path string) string {
 }
 
 func elemKey(et types.Type) string { return "E." + typeName(et) }
-func cellKey(t types.Type) string  { return "C." + typeName(t) }
+
+// cells are keyed by the underlying type: *GasPool converted to *uint64 addresses the same memory
+func cellKey(t types.Type) string {
+	if _, isStruct := t.Underlying().(*types.Struct); isStruct {
+		return "C." + typeName(t)
+	}
+	return "C." + typeName(t.Underlying())
+}
 
 func stripComp(key string) string {
 	if i := strings.Index(key, "$"); i >= 0 {
